@@ -156,7 +156,7 @@ class OversubscriptionPlanner(MetaEngine, mixins.OneshotPlannerMixin):
             new_problem.clear_quality_metrics()
             for g, _ in goals:
                 if isinstance(g, tuple):
-                    goal = g[1] if g[1] in t[1] else em.Not(g[1])
+                    goal = g[1] if g in t[1] else em.Not(g[1])
                     new_problem.add_timed_goal(g[0], goal)
                 else:
                     goal = g if g in t[1] else em.Not(g)
